@@ -15,6 +15,11 @@ class MergeFail(Exception):
     pass
 
 
+# what ends a speculative (predicated) execution of a branch and makes the site fall back to forking: a merge the engine cannot
+# represent, or ANY ordinary exception raised while a branch ran under a symbolic condition (it may belong to the other side only)
+SpecFail = Exception
+
+
 class OpaqueStr(str):
     """text whose content depends on symbolic values; only ever flows into logs / repr"""
     def __eq__(self, o):
